@@ -215,8 +215,42 @@ def complete {α : Type} (lt : α → α → Bool) (sort : List α → List α) 
 def hasTotalCountField {α : Type} (app : App α) (mode : Mode) : Bool :=
   mode == .all || app.totalCount.isSome
 
-/-- The `Resolve` function of `Connection` (pagination.go:484-573) together with the lazily
+/-- pagination.go:517-573 — what happens once the arguments are checked and the cursors decoded:
+    the limit, the lazy zero-edge path, the fetch and `completeConnection`, together with the lazily
     evaluated `pageInfo` / `totalCount` field resolvers of the returned `*connection`. -/
+def resolveDecoded {α : Type} (lt : α → α → Bool) (sort : List α → List α)
+    (app : App α) (mode : Mode) (a : Args) (sel : Sel) (after before : Option α) : Out α :=
+  let limit := limitOf a
+  let wantTC := sel.totalCount && hasTotalCountField app mode
+  if limit = 1 ∨ limit = -1 then
+    -- lazy zero-edge path (pagination.go:531-566): nothing is fetched unless asked for
+    let piPart : Option (Option (PageInfo α) × List (Call α)) :=
+      if sel.pageInfo then
+        let (slice, call) := fetch app mode after before limit
+        match complete lt sort app slice after before a.first a.last with
+        | none => none
+        | some (_, pi, _) => some (some pi, [call])
+      else some (none, [])
+    let tcPart : Option Int × List (Call α) :=
+      if wantTC then
+        match app.totalCount with
+        | some n => (some n, [])
+        | none => (some (app.allEdges.length : Int), [.all])    -- only reachable in mode `all`
+      else (none, [])
+    match piPart with
+    | none => .crash
+    | some (pi, calls) => .ok { edges := [], pageInfo := pi, totalCount := tcPart.1, calls := calls ++ tcPart.2 }
+  else
+    let (slice, call) := fetch app mode after before limit
+    match complete lt sort app slice after before a.first a.last with
+    | none => .crash
+    | some (es, pi, tc) =>
+      .ok { edges := es,
+            pageInfo := if sel.pageInfo then some pi else none,
+            totalCount := if wantTC then some tc else none,
+            calls := [call] }
+
+/-- The `Resolve` function of `Connection` (pagination.go:484-573). -/
 def resolve {α : Type} (lt : α → α → Bool) (sort : List α → List α) (dec : String → Option α)
     (app : App α) (mode : Mode) (a : Args) (sel : Sel) : Out α :=
   match checkArgs a with
@@ -227,35 +261,6 @@ def resolve {α : Type} (lt : α → α → Bool) (sort : List α → List α) (
     | some after =>
       match decodeArg dec a.before with
       | none => .error .invalidBefore
-      | some before =>
-        let limit := limitOf a
-        let wantTC := sel.totalCount && hasTotalCountField app mode
-        if limit = 1 ∨ limit = -1 then
-          -- lazy zero-edge path (pagination.go:531-566): nothing is fetched unless asked for
-          let piPart : Option (Option (PageInfo α) × List (Call α)) :=
-            if sel.pageInfo then
-              let (slice, call) := fetch app mode after before limit
-              match complete lt sort app slice after before a.first a.last with
-              | none => none
-              | some (_, pi, _) => some (some pi, [call])
-            else some (none, [])
-          let tcPart : Option Int × List (Call α) :=
-            if wantTC then
-              match app.totalCount with
-              | some n => (some n, [])
-              | none => (some (app.allEdges.length : Int), [.all])    -- only reachable in mode `all`
-            else (none, [])
-          match piPart with
-          | none => .crash
-          | some (pi, calls) => .ok { edges := [], pageInfo := pi, totalCount := tcPart.1, calls := calls ++ tcPart.2 }
-        else
-          let (slice, call) := fetch app mode after before limit
-          match complete lt sort app slice after before a.first a.last with
-          | none => .crash
-          | some (es, pi, tc) =>
-            .ok { edges := es,
-                  pageInfo := if sel.pageInfo then some pi else none,
-                  totalCount := if wantTC then some tc else none,
-                  calls := [call] }
+      | some before => resolveDecoded lt sort app mode a sel after before
 
 end ApiFu.C09
